@@ -20,17 +20,18 @@ RULE = (
     'value the instruction file extracts for e_k from the concatenated --observations output equals the simulated '
     'value of row k; the template filled with the original values loads to the original parameters.  A targeted '
     'family chooses a constant specific yield such that a simulated storage falls in (-1e-3, 0) (the class of the '
-    'recorded finding).  Non-trivial: >= 10 rise and >= 10 recession observations; distinct by (dataset, parameter '
+    'recorded finding).  Library sessions: the same requests through the Python functions on one open connection -- the rise file set is generated while only the rise curve exists, the recession curve and curvature are then added on that connection and the curves and rise file sets are generated again; every set must describe the dataset as it is at that moment.  Non-trivial: >= 10 rise and >= 10 recession observations; distinct by (dataset, parameter '
     'file).'
 )
 ASSUMPTIONS = [
     'PEST semantics as implemented in spowtd_verif/pest.py (fixed-column reads are 1-based and inclusive; parameter names are case-insensitive)',
     'a filled parameter value is written the way PyYAML prints a float (shortest round-trip repr with a decimal point)',
 ]
-SIZES = {'quick': dict(ds=12, targeted=2), 'thorough': dict(ds=400, targeted=32)}
+SIZES = {'quick': dict(ds=12, targeted=2, library=8), 'thorough': dict(ds=400, targeted=32, library=160)}
 REQUIRED = {
     tier: {
         'file-sets-checked': 16,
+        'library-sessions-with-files-before-and-after-the-recession-curve': 2,
         'control-file-counts-checked': 16,
         'observations-compared-bit-for-bit': 500,
         'extracted-values-compared': 500,
@@ -58,9 +59,45 @@ def yaml_float(v):
 _CALLS = [0]
 
 
+_LIBRARY = {'connection': None}
+
+
+def run_library_to_text(argv):
+    """The same request through the Python functions on the caller's one open connection
+    (what user_interface.pestfiles / simulate dispatch to)"""
+    import io
+
+    import spowtd.pestfiles as pest_mod
+    import spowtd.simulate_recession as sim_rec
+    import spowtd.simulate_rise as sim_rise
+
+    connection = _LIBRARY['connection']
+    buf = io.StringIO()
+    try:
+        if argv[0] == 'pestfiles':
+            _, what, _, pfile, t = argv
+            with open(pfile) as f:
+                (pest_mod.generate_rise_pestfiles if what == 'rise' else pest_mod.generate_curves_pestfiles)(
+                    connection=connection, parameter_file=f, outfile_type=t, configuration_file=None, outfile=buf)
+        else:
+            curve, pfile = argv[1], argv[3]
+            obs = '--observations' in argv
+            with open(pfile) as f:
+                if curve == 'rise':
+                    sim_rise.simulate_rise(connection=connection, parameters=f, outfile=buf, observations_only=obs)
+                else:
+                    sim_rec.dump_simulated_recession(connection=connection, parameter_file=f, outfile=buf, observations_only=obs)
+    except Exception as exc:  # pylint: disable=broad-except
+        connection.rollback()
+        return None, core.describe_exception(exc)
+    return buf.getvalue(), None
+
+
 def run_cli_to_text(ctx, argv, name):
     import io
 
+    if _LIBRARY['connection'] is not None:
+        return run_library_to_text(argv)
     out = os.path.join(ctx.workdir, name)
     _CALLS[0] += 1
     argv = list(argv)
@@ -301,6 +338,55 @@ def run_dataset(ctx, rng, index):
     os.remove(db)
 
 
+def run_library_session(ctx, rng, index):
+    """Library use: one open connection for the whole session.  Files for the rise
+    calibration are generated when only the rise curve exists; then the recession curve is
+    assembled on the same connection and the file sets are generated again -- each set must
+    describe the dataset as it is at that moment"""
+    import spowtd.recession as recession_mod
+    import spowtd.rise as rise_mod
+    import spowtd.set_curvature as sc
+
+    rec = ctx.rec
+    case = gen_planted.gen(rng) if index % 3 != 2 else gen_planted.gen_noisy(rng)
+    connection, _, exc = curves_common.build_dataset(ctx, case, 'function')
+    if exc is not None:
+        if connection is not None:
+            connection.close()
+        rec.hit('library-session: dataset could not be built')
+        return
+    _LIBRARY['connection'] = connection
+    try:
+        if curves_common.run_curve(connection, 'rise') is not None:
+            rec.hit('library-session: no rise curve')
+            return
+        connection.commit()
+        rise = connection.execute('SELECT zeta_mm FROM average_rising_depth').fetchall()
+        zlo, zhi = min(r[0] for r in rise), max(r[0] for r in rise)
+        kind = ['spline', 'peatclsm'][index % 2]
+        params = random_params(rng, kind, zlo, zhi)
+        pfile = curves_common.write_yaml(os.path.join(ctx.workdir, 'lib{}_{}.yml'.format(index, kind)), params)
+        rec.hit('library-sessions')
+        if not check_file_set(ctx, None, params, pfile, kind, 'rise', dict(case, session='library: rise files before the recession curve exists'), 'lib{}'.format(index)):
+            return
+        if curves_common.run_curve(connection, 'recession') is not None:
+            rec.hit('library-session: no recession curve')
+            return
+        sc.set_curvature(connection, rng.choice([2.36, 0.5, 1.0]))
+        connection.commit()
+        levels = [r[0] for r in connection.execute('SELECT zeta_mm FROM average_recession_time UNION SELECT zeta_mm FROM average_rising_depth')]
+        params = random_params(rng, kind, min(levels), max(levels))
+        pfile = curves_common.write_yaml(os.path.join(ctx.workdir, 'lib{}_{}_b.yml'.format(index, kind)), params)
+        for what in ('curves', 'rise'):
+            if not check_file_set(ctx, None, params, pfile, kind, what, dict(case, session='library: files after the recession curve was added on the same connection'),
+                                  'lib{}b'.format(index)):
+                return
+        rec.hit('library-sessions-with-files-before-and-after-the-recession-curve')
+    finally:
+        _LIBRARY['connection'] = None
+        connection.close()
+
+
 def run_targeted(ctx, rng, index):
     """Constant specific yield chosen so that one simulated storage value
     falls just below zero: the printed value then needs 23+ characters"""
@@ -338,6 +424,9 @@ def run(ctx):
     rng = ctx.rng('pest')
     for i in range(ctx.share(s['ds'])):
         run_dataset(ctx, rng, i)
+    rng = ctx.rng('library')
+    for i in range(ctx.share(s.get('library', 0))):
+        run_library_session(ctx, rng, i)
     rng = ctx.rng('targeted')
     for i in range(ctx.share(s['targeted'])):
         run_targeted(ctx, rng, i)
